@@ -82,7 +82,13 @@ def point_snaps(out, name, idxs):
 
 
 HISTORIES = ["alone", "reversed", "after another observable", "before another observable", "after a cross section", "subset", "subset with duplicates",
-             "single high-Q2 point", "Nachtmann partner first"]
+             "single high-Q2 point", "Nachtmann partner first", "beside its other spelling"]
+
+
+def other_spelling(name):
+    """`F2` and `F2_total` name the same observable (observable_name: a missing flavour means total); a card may list both, with different points."""
+    kind, _, fl = name.partition("_")
+    return kind if fl == "total" else (f"{kind}_total" if not fl else None)
 
 
 def history_lists(A_, B_, Bxs, hname):
@@ -97,6 +103,7 @@ def history_lists(A_, B_, Bxs, hname):
         "after a cross section": [(Bxs, [0, 1, 3]), (A_, idx_all)],
         "subset": [(A_, [1])],
         "subset with duplicates": [(A_, [0, 0, 2, 0])],
+        "beside its other spelling": [(A_, idx_all), (other_spelling(A_) or B_, [3, 0])],
     }[hname]
 
 
